@@ -184,7 +184,37 @@ func nlist(v []uint64) string {
 	b.WriteByte(']')
 	return b.String()
 }
+
+// blist renders a byte string as a Gallina [list N].  Strings with long runs of equal
+// bytes are emitted run-length encoded, `(rle [(count, byte); ...])` (Model/C07.v expands
+// it under vm_compute), so that 64 KiB strings do not cost 64 Ki number literals.
 func blist(v []byte) string {
+	if len(v) >= 48 {
+		type seg struct {
+			n int
+			b byte
+		}
+		var segs []seg
+		for _, x := range v {
+			if k := len(segs); k > 0 && segs[k-1].b == x {
+				segs[k-1].n++
+			} else {
+				segs = append(segs, seg{1, x})
+			}
+		}
+		if 4*len(segs) < len(v) {
+			var b strings.Builder
+			b.WriteString("(rle [")
+			for i, sg := range segs {
+				if i > 0 {
+					b.WriteString("; ")
+				}
+				fmt.Fprintf(&b, "(%d, %d)", sg.n, sg.b)
+			}
+			b.WriteString("])")
+			return b.String()
+		}
+	}
 	var b strings.Builder
 	b.WriteByte('[')
 	for i, x := range v {
@@ -239,7 +269,7 @@ func lenClass(n int) string {
 
 func main() {
 	w := vh.New("C07", "From Verif Require Import Base.Prelude Model.C07.\nLocal Open Scope N_scope.", "case", "check")
-	w.Rule = "per codec (simple8b, integer, unsigned, timestamp, boolean, float, string, block): hand-picked edge cases first, then random value lists: lengths 0,1,2.. biased to selector counts (1..60), around 120, around 240, rarely ~1000; values: runs of 1s (>=240, ~120, embedded), k-bit uniform for every selector width, boundaries 2^k-1/2^k, RLE-friendly arithmetic progressions, int64/uint64 extremes, floats from bit patterns (+-0, subnormals, +-Inf, NaN payloads), and a malformed stream (value >= 2^60 for simple8b, NaN for floats). Non-trivial: the list has >= 2 values (or is a rejection case). Distinct: distinct Gallina terms."
+	w.Rule = "per codec (simple8b, integer, unsigned, timestamp, boolean, float, string, block): hand-picked edge cases first, then random value lists: lengths 0,1,2.. biased to selector counts (1..60), around 120, around 240, rarely ~1000; values: runs of 1s (>=240, ~120, embedded), k-bit uniform for every selector width, boundaries 2^k-1/2^k, RLE-friendly arithmetic progressions, int64/uint64 extremes, floats from bit patterns (+-0, subnormals, +-Inf, NaN payloads), and a malformed stream (value >= 2^60 for simple8b, NaN for floats); a LONG-string stream (string codec and string blocks): 1-6 strings with lengths around the uvarint boundaries 127/128, 16383/16384 and 40-64 KiB mixed with a few short ones, written run-length encoded in the Gallina term. Non-trivial: the list has >= 2 values (or is a rejection case). Distinct: distinct Gallina terms."
 	var rc jcase
 	if w.ReplayCase(&rc) {
 		run(w, &rc)
